@@ -188,6 +188,29 @@ def later_op(rng, case, nregs, s):
     return ["tree", [s, rng.randrange(n)]]
 
 
+def max_fins(c):
+    """largest number of finalizers any initialised pipeline of the history has (callables / files named
+    several times contribute once per instantiation)"""
+    fins = [len(d["fin"]) for d in c["defs"]]
+    ent = {}
+    for k, e in [x for x in c["tab"] if x[1][0] == "file"] + [x for x in c["tab"] if x[1][0] != "file"]:
+        ent[k] = fins[e[1]] if e[0] == "obj" else max(len(d["fin"]) for d in e[1]) if e[0] == "seq" else len(e[1]["fin"])
+    cls = len(c["bk"]["fin"]) + len(c["of"]["fin"])
+    worst = 0
+
+    def tf(t):
+        return fins[t] if isinstance(t, int) else tf(t[0]) + tf(t[1])
+    try:
+        for o in c["prog"]:
+            if o[0] == "tree": fins.append(tf(o[1]))
+            elif o[0] == "resolve": fins.append(sum(ent[s] for s in o[1]))
+            elif o[0] == "sum": fins.append(sum(fins[i] for i in o[1]))
+            elif o[0] in ("init", "convert"): worst = max(worst, cls + (fins[o[2]] if o[2] is not None else 0))
+    except (KeyError, IndexError):
+        pass
+    return worst
+
+
 def with_prog(base, prog):
     c = copy.deepcopy(base)
     c["prog"] = prog
@@ -333,7 +356,8 @@ def gen_hist(tier, rng):
         else:
             prog.append(["run", rng.choice(sorted(inited))])
         out.append(with_prog(base, prog))
-    return out
+    # every concat finalizer after the first multiplies the output length: keep histories whose pipelines stay small
+    return [c for c in out if max_fins(c) <= MAXFIN + 1]
 
 
 # ------------------------------------------------------------------------------------------ Coq terms
